@@ -216,7 +216,7 @@ pub fn run(ctx: &mut LaneCtx) {
     ctx.run_sub(
         SubSpec {
             name: "live-names",
-            cases: (240, 20_000),
+            cases: (720, 20_000),
             rule: "live targets with 1..24 threads whose names are unset / valid UTF-8 (0..15 bytes, multi-byte, whitespace) / not valid UTF-8; oracle = names stream pairs equal {(tid, comm trimmed)} for the listed threads whose comm is valid UTF-8, as read from /proc/pid/task/tid/comm; non-trivial = named and unnamed threads in the same dump; distinct = hash of case",
             strategy: crate::props::c01::case_strategy(24).boxed(),
             max_shrink_iters: 150,
